@@ -206,7 +206,7 @@ class Engine:
                 else:
                     parts.append(t)
             flat(goal)
-            if 1 < len(parts) <= 150:
+            if 1 < len(parts) <= 400:
                 last = None
                 for i, c in enumerate(parts):
                     last = self.oblige(p, '%s [conjunct %d/%d]' % (name, i + 1, len(parts)), c, kind, True)
